@@ -144,6 +144,12 @@ fixed("C16", "C16-interface-possible-types", "cacf763", "possibleTypes of interf
 fixed("C16", "C16-input-field-default", "baffcba", "defaultValue missing from inputFields")
 
 fixed("C14", "C14-cache-key-ignores-operation-type", "e7018ac", "history { both(x:1) } ; mutation { both(x:1) } on a caching planner: the second request was executed with the first one's plan (mutation sent as query)")
+fixed("C18", "C18-close-unlocks-foreign-mutex", "f91c094", "stop racing an upstream complete: Close ignored TryLock's result and unlocked the mutex Listen's clean-up held (fatal error: sync: unlock of unlocked mutex), 1 preemption")
+fixed("C18", "C18-close-send-on-closed-channel", "f91c094", "stop or terminate racing an upstream complete/error/disconnect: Close sent on closeCh after Listen had closed it (panic in the go Close() goroutine)")
+fixed("C18", "C18-reader-send-on-closed-channel", "7351ec0", "upstream event racing a stop: the Subscribe reader sent the payload on respCh after Listen closed it; only the deferred send is covered by recover")
+fixed("C18", "C18-cleanup-skipped-on-abrupt-disconnect", "9f1e28e", "client closes the socket abruptly: the handler's clean-up returned at the failing close-frame write, leaking the connection, listeners and upstream connections")
+fixed("C18", "C18-interleaved-frames", "6941503", "heartbeat firing while a listener writes a data frame: header/payload of two frames interleaved on the client connection")
+fixed("C17", "C17-cached-plan-stripped", "4b4f97d", "two subscriptions with the same selection on a caching planner: the second one lost its child steps (fields of other services missing from every event)")
 # ----------------------------------------------------------------------------- C13
 known("C13", "C13-root-node-map-order", ["root-node"], r"^outcome depends on map iteration order / schedule: ",
       "for the root node() entry point the planner builds root steps by ranging over maps keyed by service URL (groupSelectionSetForNodeField innerRes / routeSelectionSet result); which service is asked, and therefore the answer, depends on the iteration order",
